@@ -787,4 +787,58 @@ theorem applyOp_pj_all_options (σ : Leaves) (st : Store) (fuel : Nat) (p : PJoi
               subst h
               exact ⟨p', rfl, Or.inr ⟨rfl, J⟩⟩
 
+/-! ### Rejection of cross-engine joins (C20) -/
+
+/-- `Join.apply(lhs, rhs)` on operands of different engines whose columns are fine raises `EngineError`. -/
+theorem binaryApply_join_cross_engine_error (st : Store) (fuel : Nat) (j : JoinOp) (l r : Rel)
+    (hne : l.engine ≠ r.engine) (op' : BOp) (hb : joinBeginApply j l r = .ok op') :
+    binaryApply st (fuel+2) (.join j) l r = .error .engine := by
+  obtain ⟨op, hop, hpred, htriv⟩ := joinBeginApply_cross j l r op' hne hb
+  subst hop
+  have hne' : (l.engine != r.engine) = true := by simpa using hne
+  rw [binaryApply]
+  simp only [bind, Except.bind, hb]
+  cases hk : l.engine.kind with
+  | iter =>
+    simp only [binaryFinishApply, hpred]
+    by_cases ht : (j.pred.asTrivial == some true) = true
+    · obtain ⟨h1, h2⟩ := htriv ht
+      simp [ht, h1, h2, hne']
+    · simp [ht, hne']
+  | sql =>
+    simp only []
+    rw [appendBinarySql]
+    simp [bind, Except.bind, throw, throwThe, MonadExceptOf.throw, hne']
+
+/-- `relation.join(fixed, backtrack=False, transfer=False)` across engines never returns a relation. -/
+theorem applyOp_pj_no_options_rejected (st : Store) (fuel : Nat) (p : PJoin) (t : Rel) (o : Opts)
+    (hpref : o.pref = none) (hbt : o.backtrack = false) (htr : o.transfer = false)
+    (hkt : t.engine.kind = .iter) (hne : p.fixed.engine ≠ t.engine)
+    (hfix0 : p.join.resolved = true → p.join.minCols.subset p.fixed.columns = true)
+    (res : Res) : applyOp st fuel (.pj p) t o ≠ .ok res := by
+  intro h
+  cases fuel with
+  | zero => rw [applyOp] at h; cases h
+  | succ fuel =>
+    rw [applyOp] at h
+    simp only [AnyOp.beginApply, bind, Except.bind, pure, Except.pure, Except.map, hpref] at h
+    cases hb : p.beginApply t none with
+    | error e => simp [hb] at h
+    | ok v =>
+      obtain ⟨p', e⟩ := v
+      obtain ⟨f1, _, _, f4, _, _, _, _⟩ := pjBeginApply_ok p t none p' e hfix0 hb
+      have he : e = p.fixed.engine := f4
+      subst he
+      have hne' : (p.fixed.engine != t.engine) = true := by simpa using hne
+      simp only [hb, hne', hbt, htr, if_true, Bool.false_eq_true, if_false, Bool.not_false, Res.get] at h
+      have hx : ∀ r, appendUnary st fuel (.pj p') t ≠ .ok r :=
+        fun r => appendUnary_pj_cross_engine st fuel p' t hkt (by rw [f1]; exact hne) r
+      cases happ : appendUnary st fuel (.pj p') t with
+      | ok r => exact hx r happ
+      | error e =>
+        simp only [happ] at h
+        split at h
+        · simp [throw, throwThe, MonadExceptOf.throw] at h
+        · cases h
+
 end DafRel
